@@ -389,7 +389,11 @@ pub fn run(tier: Tier) -> i32 {
         // comment lines of every shape: the marker is the first `//` of the line, everything after
         // it (trimmed) is content, further slashes included
         {
-            let shapes = ["// n", "//n", "///three", "//// four", "// // nested", "//////////", "// a // b", "//\t// x", "  //// indented four", "//x//", "/// ", "////", "// /", "//  //  ", "///// five /////"];
+            let shapes = [
+                "// n", "//n", "///three", "//// four", "// // nested", "//////////", "// a // b", "//\t// x", "  //// indented four", "//x//", "/// ", "////", "// /", "//  //  ", "///// five /////",
+                // quotes, brackets and other characters of the expression syntax inside comments
+                "// 19\" rack", "// say \"hi\"", "// \"", "// it's", "// a \\ b", "// @k: i1;", "// [unclosed", "// {a: (", "// \\\"",
+            ];
             let content = |l: &str| l.trim().strip_prefix("//").unwrap_or("").trim().to_string();
             let mut seqs: Vec<Vec<&str>> = Vec::new();
             for a in shapes {
@@ -402,7 +406,12 @@ pub fn run(tier: Tier) -> i32 {
             for seq in &seqs {
                 let comments: Vec<String> = seq.iter().map(|l| content(l)).collect();
                 let cref: Vec<&str> = comments.iter().map(|c| c.as_str()).collect();
-                for text in [format!("{}\nx", seq.join("\n")), format!("{}\r\n@k: i1;\r\nx\r\n", seq.join("\r\n")), format!("@name: \"N\";\n{}\nx", seq.join("\n"))] {
+                for text in [
+                    format!("{}\nx", seq.join("\n")),
+                    format!("{}\r\n@k: i1;\r\nx\r\n", seq.join("\r\n")),
+                    format!("@name: \"N\";\n{}\nx", seq.join("\n")),
+                    format!("{}\n@k: \"s\"; // 3\" pipe\nx == \"q\" // odd \" quote\n{}", seq[0], seq[1..].join("\n")),
+                ] {
                     check_raw_rule(&g, &text, &cref, "comment-shape", &mut acc0);
                     acc0.count("comment_shape_texts", 1);
                 }
